@@ -101,6 +101,7 @@ def run(eng: Engine, argv: list[str] | None = None) -> int:
 	ap.add_argument('--digests', action='store_true', help='print per-case log digests and exit (determinism self-test)')
 	ap.add_argument('--indices', default='')
 	ap.add_argument('--no-evidence', action='store_true')
+	ap.add_argument('--no-determinism', action='store_true')
 	opts = ap.parse_args(argv)
 	tier = opts.tier if opts.tier in ('quick', 'thorough') else 'quick'
 	seed = master_seed()
@@ -123,14 +124,35 @@ def run(eng: Engine, argv: list[str] | None = None) -> int:
 
 
 def _digests(eng: Engine, seed: int, indices: str) -> int:
-	canon = eng.canonical_cases()
+	"""Print the event-log digests of the seeded cases with the given indices (determinism self-test; no canonical cases, no prepare())."""
 	idx = [int(x) for x in indices.split(',') if x != '']
 	out = {}
-	for i in idx:
-		res = _work((eng, seed, canon, i))
+	for j in idx:
+		res = _work((eng, seed, [], j))
 		out[res['label']] = res.get('log')
 	print('DIGESTS ' + json.dumps(out, sort_keys=True))
 	return 0
+
+
+def determinism_spot_check(eng: Engine, seed: int, logs: dict[str, Any]) -> dict[str, Any]:
+	"""Re-run a few seeded cases of this very run in a fresh interpreter under another PYTHONHASHSEED and compare the event-log digests.
+	A divergence is a harness error (the simulator forgot a source of nondeterminism), never a verdict about tranp."""
+	labels = sorted(logs, key=int)[:3]
+	if not labels:
+		return {'cases': 0}
+	env = dict(os.environ, TRANPSIM_HASHSEED='1', VERIF_SEED=str(seed))
+	env.pop('PYTHONHASHSEED', None)
+	p = subprocess.run([sys.executable, '-m', 'tranpsim.check', eng.prop, '--digests', '--indices', ','.join(labels)], cwd=core.VERIF_DIR, env=env, capture_output=True, text=True, timeout=900)
+	other = None
+	for ln in p.stdout.splitlines():
+		if ln.startswith('DIGESTS '):
+			other = json.loads(ln[8:])
+	if other is None:
+		raise HarnessError(f'determinism spot check produced no digests: {p.stderr[-400:]}')
+	bad = [lb for lb in labels if other.get(lb) != logs[lb]]
+	if bad:
+		raise HarnessError(f'determinism spot check diverged for seeded cases {bad}: {[(logs[b], other.get(b)) for b in bad]}')
+	return {'cases': len(labels), 'labels': labels, 'second_interpreter_hashseed': '1', 'identical': True}
 
 
 def _replay(eng: Engine, path: str) -> int:
@@ -166,6 +188,7 @@ def _main(eng: Engine, tier: str, seed: int, opts: Any) -> int:
 	violations: list[tuple[dict[str, Any], dict[str, Any]]] = []
 	known_seen: dict[str, int] = {}
 	state = {'done': 0, 'sim_time': 0.0}
+	logs: dict[str, Any] = {}
 
 	def absorb(i: int, res: dict[str, Any]) -> None:
 		if res.get('skipped'):
@@ -181,6 +204,8 @@ def _main(eng: Engine, tier: str, seed: int, opts: Any) -> int:
 			ev.add_distinct(key)
 		for key in res.get('states', []):
 			ev.add_state(key)
+		if str(res.get('label', '')).isdigit() and len(logs) < 3 and not res.get('violations'):
+			logs[res['label']] = res.get('log')
 		if res.get('case') is not None and len(ev.coverage['samples']) < 4:
 			ev.coverage['samples'].append({'label': res['label'], 'case': eng.sample_of(res['case'])})
 		for v in res.get('violations', []):
@@ -192,6 +217,8 @@ def _main(eng: Engine, tier: str, seed: int, opts: Any) -> int:
 	core.run_indexed(_work_i, range(total), deadline=deadline, on_result=absorb)
 	done = state['done']
 	sim_time = state['sim_time']
+	if not opts.no_determinism:
+		ev.coverage['determinism_check'] = determinism_spot_check(eng, seed, logs)
 	for rec in eng.extra_passes(ev, tier, seed):
 		violations.append(({'case': rec['case'], 'label': rec.get('label', 'enum'), 'from_pass': True}, rec['violation']))
 	ev.coverage['canonical_histories'] = len(canon)
